@@ -265,6 +265,116 @@ def task_hyp(ctx: Ctx, shard: int, n: int) -> None:
     )
 
 
+# --- coverage-guided campaign (atheris / libFuzzer) --------------------------------------------------------------------
+
+
+from functools import lru_cache
+
+
+@lru_cache(maxsize=None)
+def fuzz_panel() -> list[tuple[str, str, str]]:
+    """The fixed (type, pattern, culture) panel the fuzz target indexes with its first byte (<= 0xEF entries)."""
+    names = T.culture_names()
+    cults = [c for c in ("", "en-US", "fr-FR") if c in names]
+    out = [(t, p, cn) for t in T.TYPES for p in PARSE_PANEL[t] for cn in cults if try_create(t, p, cn) is not None]
+    return out[:0xF0]
+
+
+FUZZ_VALUES = {
+    "date": {"cal": "ISO", "n": 19782}, "time": {"ns": 45296789012345}, "datetime": {"cal": "ISO", "n": 19782, "ns": 45296789012345},
+    "instant": {"i": 1709251200123456789}, "offset": {"s": 19800}, "duration": {"ns": 93784005006007}, "annual": {"m": 2, "d": 29},
+}  # fmt: skip
+
+
+def fuzz_pattern_mode(t: str, pattern: str) -> bool:
+    """Pattern text from the fuzzer: creation raises nothing but InvalidPatternError; a created pattern formats a
+    fixed value and parses that text (and the raw pattern text itself) without raising."""
+    p = try_create(t, pattern, "")
+    if p is None:
+        return False
+    try:
+        text = p.format(T.make_value(t, FUZZ_VALUES[t]))
+    except Exception:  # noqa: BLE001  (formatting is C07's subject)
+        text = "2000-01-01T00:00:00"
+    check_parse(t, p, text, f"parse[{t}]")
+    check_parse(t, p, pattern, f"parse[{t}]")
+    return True
+
+
+def _k_fuzz(c) -> CaseInfo:
+    """Replay form of a fuzzer input: {'hex': ...} with the layout described in fuzz/c08_fuzz.py."""
+    try:
+        data = bytes.fromhex(c["hex"][: len(c["hex"]) // 2 * 2])
+    except (ValueError, TypeError, KeyError):
+        raise InvalidCase from None
+    if not data:
+        raise InvalidCase
+    text = data[1:].decode("utf-8", "replace")
+    if data[0] >= 0xF0:
+        t = T.TYPES[(data[0] & 7) % len(T.TYPES)]
+        made = fuzz_pattern_mode(t, text)
+        return CaseInfo(True, f"fuzz:pattern:{'created' if made else 'invalid'}")
+    panel = fuzz_panel()
+    t, pat, cn = panel[data[0] % len(panel)]
+    ok = check_parse(t, T.create(t, pat, cn), text, "fuzz")
+    return CaseInfo(True, f"fuzz:text:{'accepted' if ok else 'rejected'}")
+
+
+def task_atheris(ctx: Ctx, shard: int, runs: int) -> None:
+    """libFuzzer campaign over (panel pattern, text) and over pattern texts; fixed -seed / -runs, fresh corpus of the
+    formatted texts of one value per panel entry. Saved findings are re-evaluated through the `fuzz` kind."""
+    import glob
+    import json
+    import os
+    import shutil
+    import subprocess
+    import sys
+    import tempfile
+
+    from harness import bootstrap
+
+    try:
+        import atheris  # noqa: F401
+    except Exception:  # noqa: BLE001
+        ctx.label("atheris:unavailable")
+        return
+    work = tempfile.mkdtemp(prefix=f"c08-atheris-{shard}-")
+    try:
+        corpus, out = os.path.join(work, "corpus"), os.path.join(work, "out")
+        os.makedirs(corpus)
+        os.makedirs(out)
+        panel = fuzz_panel()
+        for ix, (t, pat, cn) in enumerate(panel):
+            if ix % 2 == shard % 2 or len(panel) < 100:
+                try:
+                    text = T.create(t, pat, cn).format(T.make_value(t, FUZZ_VALUES[t]))
+                except Exception:  # noqa: BLE001
+                    continue
+                with open(os.path.join(corpus, f"p{ix}"), "wb") as fh:
+                    fh.write(bytes([ix]) + text.encode("utf-8"))
+        for k, t in enumerate(T.TYPES):
+            for j, pat in enumerate(PARSE_PANEL[t][:4]):
+                with open(os.path.join(corpus, f"q{k}-{j}"), "wb") as fh:
+                    fh.write(bytes([0xF0 | k]) + pat.encode("utf-8"))
+        seed = 1 + sub_seed(ctx.seed, "c08-atheris", shard) % (2**31 - 2)
+        cmd = [sys.executable, os.path.join(bootstrap.VERIF_DIR, "fuzz", "c08_fuzz.py"), out, corpus, f"-runs={runs}", f"-seed={seed}", "-max_len=96", "-timeout=120", "-rss_limit_mb=4096", f"-artifact_prefix={out}/"]
+        r = subprocess.run(cmd, capture_output=True, text=True)
+        try:
+            stats = json.load(open(os.path.join(out, "stats.json")))
+        except Exception:  # noqa: BLE001
+            stats = {}
+        execs = int(stats.get("execs", 0))
+        if execs == 0:
+            raise RuntimeError(f"atheris campaign did not run: exit {r.returncode}: {(r.stdout + r.stderr)[-600:]}")
+        ctx.bulk(execs, int(stats.get("accepted", 0)) + int(stats.get("created", 0)), label="atheris:exec")
+        ctx.sample("atheris", {"shard": shard, "seed": seed, "execs": execs, "accepted": stats.get("accepted"), "created": stats.get("created"), "buckets": {k: v["n"] for k, v in stats.get("buckets", {}).items()}}, True)
+        for f in sorted(glob.glob(os.path.join(out, "finding-*.bin")) + glob.glob(os.path.join(out, "crash-*")) + glob.glob(os.path.join(out, "timeout-*")) + glob.glob(os.path.join(out, "oom-*"))):
+            with open(f, "rb") as fh:
+                ctx.case("fuzz", {"hex": fh.read().hex()})
+    finally:
+        shutil.rmtree(work, ignore_errors=True)
+
+
 def task_panel(ctx: Ctx) -> None:
     """Deterministic sweep: every panel pattern x fixed cultures x a few values x all mutation operators."""
     cults = [c for c in CULTURES_FIXED if c in T.culture_names()]
@@ -289,4 +399,6 @@ def tasks(tier: str, seed: int) -> list[Task]:
     n = 4000 if tier == "quick" else 40000
     out = [Task("task_hyp", {"shard": i, "n": n}, f"hyp-{i}") for i in range(14)]
     out.append(Task("task_panel", {}, "panel"))
+    for j in range(2 if tier == "quick" else 16):
+        out.append(Task("task_atheris", {"shard": j, "runs": 20000 if tier == "quick" else 600000}, f"atheris-{j}"))
     return out
